@@ -217,7 +217,7 @@ pub fn replay(case: &Value) -> Result<(), String> {
     }
     if let Some(env_name) = case["nostd_grid"].as_str() {
         let bin = std::env::var(env_name).map_err(|_| format!("{} not set", env_name))?;
-        let out = std::process::Command::new(&bin).arg("--kernel-grid").arg("320").output().map_err(|e| e.to_string())?;
+        let out = crate::common::child_command(&bin).arg("--kernel-grid").arg("320").output().map_err(|e| e.to_string())?;
         let so = String::from_utf8_lossy(&out.stdout).to_string();
         if let Some(l) = so.lines().find(|l| l.starts_with("GRID-FAIL")) {
             return Err(l.to_string());
@@ -240,7 +240,7 @@ pub fn run(ctx: &Ctx) -> i32 {
     // the dispatchers' real portable path: the no_std build of the library (release and debug-assertions)
     for env_name in ["RQ_BIN_NOSTD", "RQ_BIN_NOSTD_CHECKED"] {
         let bin = std::env::var(env_name).unwrap_or_else(|_| machinery_failure(&format!("{} not set (run through ./check)", env_name)));
-        let out = std::process::Command::new(&bin).arg("--kernel-grid").arg("320").output().unwrap_or_else(|e| machinery_failure(&format!("cannot run {}: {}", bin, e)));
+        let out = crate::common::child_command(&bin).arg("--kernel-grid").arg("320").output().unwrap_or_else(|e| machinery_failure(&format!("cannot run {}: {}", bin, e)));
         let so = String::from_utf8_lossy(&out.stdout).to_string();
         let done = so.lines().find(|l| l.starts_with("GRID-DONE"));
         let tag = if env_name.ends_with("CHECKED") { "checked/no_std" } else { "release/no_std" };
